@@ -450,7 +450,7 @@ class _quiet:
 def run_job(job, seed=0):
     """Explore one job.  Returns a JSON-able summary."""
     t0 = time.time()
-    budget = job.budget_s or (300 if os.environ.get('VERIF_TIER', 'quick') == 'quick' else 1500)
+    budget = job.budget_s or (600 if os.environ.get('VERIF_TIER', 'quick') == 'quick' else 3000)
     deadline = t0 + budget
     summ = {'job': job.name, 'family': job.family, 'params': _jsonable_params(job.params), 'paths': 0,
             'decisions': 0, 'proved': 0, 'trivial': 0, 'unknown': [], 'violations': [], 'errors': [],
